@@ -14,6 +14,8 @@ computes provided the wrapper contracts hold (TRUSTED, listed under assumptions)
   R8  E.to_bits()                                -> vf_to_bits(E)                           (builder unit; f64 bit pattern as an uninterpreted view)
   R9  V.binary_search_by_key(&K, |e| e.bytecode_offset) -> vf_bsearch_offset(&V, K)       (builder unit; std contract assumed, cross-checked by bounded Kani)
   R10 V.retain(|&r| r < P)                       -> vf_retain_lt(&mut V, P)                (builder unit; Vec::retain == order-preserving filter, cross-checked by bounded Kani)
+  R11 for X in E.iter().rev() { B }              -> let mut vf_i: usize = E.len(); while vf_i > 0 { vf_i = vf_i - 1; let X = &E[vf_i]; B }
+                                                    (trace unit; E a field path; TRUSTED: slice::Iter + Rev visit the elements in descending index order, each once)
   R7  if let Some(&X) = E {..}                   -> if let Some(X) = vf_copied(E) {..}      (builder unit; Verus has no ref patterns)
 """
 import re
@@ -218,6 +220,32 @@ def apply_rules(src, fn, rules, edits, stats):
                     edits.append(Edit(toks[lo].start, toks[hi].end, 'vf_split(%s, %s)' % (recv, arg), 'R1'))
                     stats['R1'] += 1
                     skip.append((lo, hi))
+    # R11: `for X in E.iter().rev() {`  (Verus has no iterator adapters): descending index loop over the same Vec
+    if rw.on('R11'):
+        r11_before = stats['R11']
+        for L in fn.loops:
+            if L.kind != 'for':
+                continue
+            k = L.kw + 1
+            if toks[k].kind != 'ident' or toks[k + 1].text != 'in':
+                continue
+            lo, hi = k + 2, L.body_open - 1
+            tail = [t.text for t in toks[hi - 7:hi + 1]]
+            if tail != ['.', 'iter', '(', ')', '.', 'rev', '(', ')']:
+                continue
+            recv_toks = toks[lo:hi - 7]
+            if not recv_toks or any(not (t.kind == 'ident' or t.text in ('.', 'self')) for t in recv_toks):
+                raise RsxError('unsupported construct: for .. in E.iter().rev() with E not a plain field path')
+            recv = _text(src, lo, hi - 8)
+            var = toks[k].text
+            edits.append(Edit(toks[L.kw].start, toks[hi].end,
+                              'let mut vf_i: usize = %s.len();\n        while vf_i > 0' % recv, 'R11'))
+            edits.append(Edit(toks[L.body_open].end, toks[L.body_open].end,
+                              '\n            vf_i = vf_i - 1;\n            let %s = &%s[vf_i];' % (var, recv), 'R11', 0))
+            stats['R11'] += 1
+            skip.append((L.kw, hi))
+        if stats['R11'] == r11_before:
+            raise RsxError('anchor lost: rule R11 finds no `for X in E.iter().rev()` loop in %s' % fn.name)
     # R7: `if let Some(&X) = E {`  (ref pattern on a Copy payload == Option::copied)
     if rw.on('R7'):
         i = fn.body_open + 1
